@@ -1,19 +1,25 @@
 #!/bin/bash
 # usage: run.sh <PROPERTY-ID> [quick|thorough] [extra check flags]
-# Rebuilds the checker against /repo's current working tree (build tag verif) and runs one property.
+# Rebuilds the checker against the repository's current working tree (build tag verif, sync import-rewrite overlay)
+# and runs one property. VERIF_ROOT (default: this script's directory) and VERIF_REPO (default /repo) allow an
+# isolated snapshot run (vp run --with-repo); registered commands use the defaults.
 set -u
 export GOFLAGS=-mod=mod GOPROXY=off GOSUMDB=off GOTOOLCHAIN=local CGO_ENABLED=0
-cd /verif/mc || exit 2
+ROOT="${VERIF_ROOT:-$(cd "$(dirname "$0")" && pwd)}"
+REPO="${VERIF_REPO:-/repo}"
+export VERIF_ROOT="$ROOT"
+cd "$ROOT/mc" || exit 2
 ID="$1"; TIER="${2:-${VERIF_TIER:-quick}}"; shift; shift 2>/dev/null || true
-mkdir -p /verif/bin /verif/evidence
-BIN=/verif/bin/check.$$
-cp /repo/go.sum /verif/mc/go.sum 2>/dev/null
-OV=/verif/bin/ov.$$
-/verif/mkoverlay.sh "$OV" || { echo "HARNESS ERROR: overlay generation failed" >&2; exit 2; }
-if ! go build -tags verif -overlay "$OV/overlay.json" -o "$BIN" ./cmd/check 2>/verif/bin/build.$$.log; then
-  echo "HARNESS ERROR: build failed" >&2; cat /verif/bin/build.$$.log >&2; rm -rf /verif/bin/build.$$.log "$OV"; exit 2
+mkdir -p "$ROOT/bin" "$ROOT/evidence"
+BIN="$ROOT/bin/check.$$"
+OV="$ROOT/bin/ov.$$"
+MODFILE="$OV/go.mod"
+"$ROOT/mkoverlay.sh" "$OV" "$REPO" || { echo "HARNESS ERROR: overlay generation failed" >&2; exit 2; }
+sed "s#=> /repo#=> $REPO#" go.mod > "$MODFILE"; cp "$REPO/go.sum" "$OV/go.sum"
+if ! go build -modfile="$MODFILE" -tags verif -overlay "$OV/overlay.json" -o "$BIN" ./cmd/check 2>"$ROOT/bin/build.$$.log"; then
+  echo "HARNESS ERROR: build failed" >&2; cat "$ROOT/bin/build.$$.log" >&2; rm -rf "$ROOT/bin/build.$$.log" "$OV"; exit 2
 fi
-rm -rf /verif/bin/build.$$.log "$OV"
+rm -rf "$ROOT/bin/build.$$.log" "$OV"
 "$BIN" --tier "$TIER" "$@" "$ID"
 rc=$?
 rm -f "$BIN"
